@@ -494,3 +494,108 @@ def specs_offset_lns(prop):
     return [Fragment('fst_core:_offset_lns', prop, 'offset_lns', [dict(mode='single'), dict(mode='per_line')], run,
                      min_obligations=2, notes='per-node body (walk replaced by a one-node iteration); line set / per-line '
                                               'delta map are uninterpreted')]
+
+
+# ---------------------------------------------------------------------------------------------------------------------
+# put_src(action='offset'): entry guard, the two offset phases, and the composition lemma (C11)
+
+def specs_entry(prop='C11'):
+    import collections
+    from pyvc import frontend, values, sym
+    from pyvc.contract import Fragment, INT
+    from pyvc.interp import Interp, IFunc, SObj, PyRaise
+
+    FSTLOC = collections.namedtuple('fstloc', 'ln col end_ln end_col')
+
+    def run_entry(ctx, case, loc, pre, label):
+        lb = values.str_list('L')
+        lines = values.SList.of_base(lb)
+        root = SObj('root', {}, _lines=lines)
+        root._set('root', root, count=False)
+        calls = []
+        sl = FSTLOC(ctx.int('s_ln'), ctx.int('s_col'), ctx.int('s_end_ln'), ctx.int('s_end_col'))
+        ctx.assume(and_(0 <= sl.ln, sl.ln <= sl.end_ln, sl.end_ln < slen(lines), 0 <= sl.col, 0 <= sl.end_col))
+        PARAMS = ('P_ln', 'P_col', 'P_dln', 'P_dcol')
+        self = SObj('self', {}, root=root, loc=sl, a=SObj('a', {'__class__': 'Name'}))
+        self._set('_put_src', lambda *a, **k: calls.append(('put_src', a, k)) or PARAMS, count=False)
+        self._set('_offset', lambda *a, **k: calls.append(('offset', a, k)), count=False)
+        self._set('_touchall', lambda *a, **k: calls.append(('touchall', a, k)), count=False)
+
+        class CM:
+            def __init__(s2, *a):
+                calls.append(('modifying', a, {}))
+        cm = SObj('cm', {})
+        cm._set('__enter__', lambda: cm, count=False)
+        cm._set('__exit__', lambda *a: False, count=False)
+        self._set('_modifying', lambda *a, **k: (calls.append(('modifying', a, k)), cm)[1], count=False)
+        it = Interp({'ASTS_LEAF_FTSTR_FMT': frozenset(), 'ASTS_LEAF_STMTLIKE': frozenset(),
+                     '_code_as_lines': lambda code: ['PUT']})
+        it.globals['clip_src_loc'] = IFunc(it, frontend.locate('fst_misc:clip_src_loc').node, None, 'clip_src_loc')
+        ln, col, end_ln, end_col = ctx.int('ln'), ctx.int('col'), ctx.int('end_ln'), ctx.int('end_col')
+        # requires: already valid coordinates (clip_src_loc's own contract is proved separately)
+        ctx.assume(and_(0 <= ln, ln <= end_ln, end_ln < slen(lines), 0 <= col, 0 <= end_col))
+        if not truth(and_(col <= slen(lines[ln]), end_col <= slen(lines[end_ln]), or_(ln < end_ln, col <= end_col))):
+            raise sym.PathAbort()
+        inside = and_(lex_le((sl.ln, sl.col), (ln, col)), lex_le((end_ln, end_col), (sl.end_ln, sl.end_col)))
+        f = IFunc(it, loc.node, None, 'put_src')
+        try:
+            r = it.call(f, (self, 'CODE', ln, col, end_ln, end_col, 'offset'))
+        except PyRaise as pr:
+            ctx.notes['outcome'] = f'raise {pr.cls.__name__}'
+            ctx.prove(f'{pre}.guard.rejects_only_outside[{label}]', and_(pr.cls is ValueError, not_(inside)))
+            ctx.prove(f'{pre}.guard.nothing_done[{label}]', not [c for c in calls if c[0] in ('put_src', 'offset')])
+            return
+        ctx.notes['outcome'] = 'return'
+        ctx.prove(f'{pre}.guard.accepts_only_inside[{label}]', inside)
+        kinds = [c[0] for c in calls]
+        ctx.prove(f'{pre}.phases.order[{label}]', kinds == ['modifying', 'put_src', 'offset'])
+        if kinds == ['modifying', 'put_src', 'offset']:
+            a1, k1 = calls[1][1], calls[1][2]
+            ctx.prove(f'{pre}.phase1.args[{label}]',
+                      and_(eq(tuple(a1[1:5]), (ln, col, end_ln, end_col)),
+                           len(a1) == 8 and a1[0] == ['PUT'] and a1[5] is True and a1[6] is False and a1[7] is self and not k1),
+                      info='root-wide offset: tail=True, head=False, exclude=self (offset_excluded default True)')
+            a2, k2 = calls[2][1], calls[2][2]
+            ctx.prove(f'{pre}.phase2.args[{label}]',
+                      tuple(a2) == PARAMS + (False, True) and k2 == {'self_': False},
+                      info='inside self: tail=False, head=True, self_=False, with the parameters returned by phase 1')
+        ctx.prove(f'{pre}.returns_end_of_put[{label}]', eq(tuple(r), (ln, col + 3)), info="single put line 'PUT'")
+
+    def run_compose(ctx, case, loc, pre, label):
+        """Lemma over the per-node contract of _offset (spec_node): composing phase 1 (tail=True, head=False, on every
+        node that is not a proper descendant of self) and phase 2 (tail=False, head=True, on proper descendants) gives
+        the property's last sentence, for a replaced span [Sp, P] that is trivia of self."""
+        def pt(n):
+            return (ctx.int(n + '.l'), ctx.int(n + '.c'))
+        S, E, Sp, P = pt('S'), pt('E'), pt('Sp'), pt('P')
+        dln, dcol = ctx.int('dln'), ctx.int('dcol')
+        ctx.assume(and_(lex_le(S, E), lex_le(Sp, P), not_(eq(S, E))))
+        kind = case['kind']
+        if kind == 'before_outside':      # sibling / other subtree before self: ends before self starts, i.e. before Sp
+            ctx.assume(lex_lt(E, Sp))
+            s_m, e_m = spec_node(S, E, P, dln, dcol, True, False)
+            ctx.prove(f'{pre}.before.unchanged[{label}]', and_(not_(s_m), not_(e_m)))
+        elif kind == 'after_outside':
+            ctx.assume(lex_lt(P, S))
+            s_m, e_m = spec_node(S, E, P, dln, dcol, True, False)
+            ctx.prove(f'{pre}.after.shifted[{label}]', and_(s_m, e_m))
+        elif kind == 'containing':        # self and its ancestors: strictly contain the span
+            ctx.assume(and_(lex_lt(S, Sp), lex_lt(P, E)))
+            s_m, e_m = spec_node(S, E, P, dln, dcol, True, False)
+            ctx.prove(f'{pre}.containing.grows_or_shrinks[{label}]', and_(not_(s_m), e_m))
+        elif kind == 'desc_before':       # proper descendant before the span (may END exactly at Sp == P for insertion)
+            ctx.assume(lex_le(E, Sp))
+            s_m, e_m = spec_node(S, E, P, dln, dcol, False, True)
+            ctx.prove(f'{pre}.descendant_before.unchanged[{label}]', and_(not_(s_m), not_(e_m)))
+        else:                             # proper descendant after the span (may START exactly at P)
+            ctx.assume(lex_le(P, S))
+            s_m, e_m = spec_node(S, E, P, dln, dcol, False, True)
+            ctx.prove(f'{pre}.descendant_after.shifted[{label}]', and_(s_m, e_m))
+
+    return [
+        Fragment('fst:FST.put_src', prop, 'entry', [dict()], run_entry, min_obligations=2,
+                 notes="action='offset' branch: guard, phase 1 (_put_src with offset) and phase 2 (_offset inside self)"),
+        Fragment('fst_core:_offset', prop, 'entry.compose',
+                 [dict(kind=k) for k in ('before_outside', 'after_outside', 'containing', 'desc_before', 'desc_after')],
+                 run_compose, notes='lemma over the per-node contract of _offset; zero-width nodes on the spot excluded'),
+    ]
